@@ -18,17 +18,54 @@ Definition mk_state (vals : list vstate) (h : Z) : state :=
 
 Record sobs := {
   o_ok : bool;
+  o_digest : Z;                        (* fingerprint of the whole projection (all validators, allowances, entries, height) *)
+  o_full : bool;                       (* are the explicit records below filled in? *)
   o_vals : list (Z * vstate);          (* validators the operation names, as read from the real stores *)
   o_allow : list (akey * Z);           (* every non-zero allowance *)
   o_reds : list (Z * Z * Z * Z);       (* delegator, src, dst, number of entries *)
   o_ubds : list (Z * Z * Z);           (* delegator, validator, number of entries *)
   o_height : Z
 }.
-Definition mk_obs ok vals allow reds ubds h : sobs :=
-  {| o_ok := ok; o_vals := vals; o_allow := allow; o_reds := reds; o_ubds := ubds; o_height := h |}.
+Definition mk_obs ok dg vals allow reds ubds h : sobs :=
+  {| o_ok := ok; o_digest := dg; o_full := true; o_vals := vals; o_allow := allow; o_reds := reds; o_ubds := ubds; o_height := h |}.
+Definition mk_obs_d ok dg h : sobs :=
+  {| o_ok := ok; o_digest := dg; o_full := false; o_vals := []; o_allow := []; o_reds := []; o_ubds := []; o_height := h |}.
 
-Record shares_case := { c_init : state; c_steps : list (op * sobs); c_final : list vstate }.
-Definition mk_shares_case i s f : shares_case := {| c_init := i; c_steps := s; c_final := f |}.
+(* fingerprint: polynomial hash modulo 2^64 (odd base) over a canonical serialisation, every number fed
+   as its 64-bit limbs (at most five (all modelled quantities are below 2^320); the harness computes the same function
+   (harness/c11: digest) over the records read from the real stores.  Allowances and entries are hashed
+   order-independently (sum of per-record hashes). *)
+Definition hM : Z := 18446744073709551615.
+Definition hB : Z := 1000003.
+Definition hstep (acc x : Z) : Z := Z.land (acc * hB + x + 1) hM.
+Fixpoint hlimbs (fuel : nat) (acc x : Z) : Z :=
+  match fuel with
+  | O => acc
+  | S f => if x =? 0 then acc else hlimbs f (hstep acc (Z.land x hM)) (Z.shiftr x 64)
+  end.
+(* the limbs of x (least significant first, at most five), then a terminator *)
+Definition hnum (acc x : Z) : Z := hstep (hlimbs 5 acc x) 0.
+Definition hmix (l : list Z) : Z := fold_left hnum l 7.
+Definition ser_v (v : vstate) : list Z :=
+  [v_tokens v; v_shares v; Z.of_nat (length (v_dels v))] ++
+  flat_map (fun e => [fst e; snd e]) (v_dels v) ++
+  [v_period v; Z.of_nat (length (v_hist v))] ++
+  flat_map (fun e => [fst e; snd e]) (v_hist v) ++
+  [Z.of_nat (length (v_start v))] ++
+  flat_map (fun e => [fst e; si_prev (snd e); si_stake (snd e); si_height (snd e)]) (v_start v) ++
+  [Z.of_nat (length (v_slashes v))] ++
+  flat_map (fun e => [fst e; snd e]) (v_slashes v).
+Definition digest (s : state) : Z :=
+  let hv := hmix (s_height s :: Z.of_nat (length (s_vals s)) :: flat_map ser_v (s_vals s)) in
+  let ha := fold_right (fun kv acc => if snd kv =? 0 then acc
+                                      else let '(a, b, c) := fst kv in Z.land (acc + hmix [a; b; c; snd kv]) hM)
+                       0 (s_allow s) in
+  let hr := fold_right (fun e acc => let '(d, f, t) := e in Z.land (acc + hmix [d; f; t]) hM) 0 (s_reds s) in
+  let hu := fold_right (fun e acc => let '(d, w, _) := e in Z.land (acc + hmix [d; w]) hM) 0 (s_ubds s) in
+  hmix [hv; ha; hr; hu].
+
+Record shares_case := { c_init : state; c_init_digest : Z; c_steps : list (op * sobs); c_final : list vstate }.
+Definition mk_shares_case i d s f : shares_case := {| c_init := i; c_init_digest := d; c_steps := s; c_final := f |}.
 
 Definition pair_eqb (x y : Z * Z) : bool := (fst x =? fst y) && (snd x =? snd y).
 Definition si_eqb (x y : sinfo) : bool :=
@@ -49,7 +86,8 @@ Definition v_eqb (x y : vstate) : bool :=
 Definition sumZ (l : list Z) : Z := fold_right Z.add 0 l.
 
 Definition obs_ok (s : state) (ok : bool) (o : sobs) : bool :=
-  Bool.eqb ok (o_ok o) &&
+  Bool.eqb ok (o_ok o) && (digest s =? o_digest o) && (s_height s =? o_height o) &&
+  (negb (o_full o) ||
   forallb (fun iv => match get_val (fst iv) s with Some v => v_eqb v (snd iv) | None => false end) (o_vals o) &&
   forallb (fun kv => aget (fst kv) (s_allow s) =? snd kv) (o_allow o) &&
   (Z.of_nat (length (filter (fun kv => negb (snd kv =? 0)) (s_allow s))) =? Z.of_nat (length (o_allow o))) &&
@@ -57,7 +95,7 @@ Definition obs_ok (s : state) (ok : bool) (o : sobs) : bool :=
   (Z.of_nat (length (s_reds s)) =? sumZ (map (fun e => snd e) (o_reds o))) &&
   forallb (fun e => let '(d, w, n) := e in ubd_entries d w s =? n) (o_ubds o) &&
   (Z.of_nat (length (s_ubds s)) =? sumZ (map (fun e => snd e) (o_ubds o))) &&
-  (s_height s =? o_height o).
+  (s_height s =? o_height o)).
 
 (* run the model along the observed history; None at the first disagreement *)
 Fixpoint check_steps (s : state) (l : list (op * sobs)) : option state :=
@@ -69,6 +107,7 @@ Fixpoint check_steps (s : state) (l : list (op * sobs)) : option state :=
   end.
 
 Definition shares_mismatch (c : shares_case) : bool :=
+  negb (digest (c_init c) =? c_init_digest c) ||
   match check_steps (c_init c) (c_steps c) with
   | None => true
   | Some s => negb (list_eqb v_eqb (s_vals s) (c_final c))
